@@ -289,7 +289,7 @@ def obligations(tier):
         h = HaploMat(sizes=list(sizes), nblk=nb, n=n, t=t)
         h.weight = 2 ** sum(sizes) * n
         obs.append(h)
-    oh = [((3,), 2, 2, 2, 1)] if tier == "quick" else [((3,), 2, 2, 2, 1), ((2, 2), 3, 3, 2, 1), ((3,), 3, 3, 3, 1), ((3,), 2, 2, 2, 2)]
+    oh = [((3,), 2, 2, 2, 1), ((2,), 2, 3, 3, 1)] if tier == "quick" else [((3,), 2, 2, 2, 1), ((2, 2), 3, 3, 2, 1), ((3,), 3, 3, 3, 1), ((3,), 2, 2, 2, 2)]
     for sizes, nb, n, npar, t in oh:
         h = OHVMat(sizes=list(sizes), nblk=nb, n=n, nparent=npar, t=t)
         h.weight = 500
